@@ -544,6 +544,19 @@ func ShrinkText(text string, fails func(string) bool, budget int) (string, int) 
 				i--
 			}
 		}
+		// stream names
+		for i := 0; ; i++ {
+			lines := strings.SplitAfter(text, "\n")
+			if i >= len(lines) {
+				break
+			}
+			if j := strings.IndexByte(lines[i], ' '); j > 1 {
+				lines[i] = "." + lines[i][j:]
+				if try(strings.Join(lines, "")) {
+					progress = true
+				}
+			}
+		}
 		// hints
 		for i := 0; ; i++ {
 			locs := hintRe.FindAllStringIndex(text, -1)
